@@ -104,6 +104,23 @@ func (c *control) Write(p []byte) (n int, err error) {
 	return len(p), nil
 }
 
+// maxDirParam is the largest directive parameter accepted. Parameters are
+// counts, columns and widths that are filled with that many characters.
+const maxDirParam = 1 << 24
+
+// checkParamSize raises an error for an integer directive parameter with a
+// magnitude that can only exhaust memory.
+func (c *control) checkParamSize(p any) {
+	switch tp := p.(type) {
+	case slip.Fixnum:
+		if maxDirParam < tp || tp < -maxDirParam {
+			slip.ErrorPanic(c.scope, 0, "directive parameter %d is too large at %d of %q", tp, c.pos, c.str)
+		}
+	case *slip.Bignum:
+		slip.ErrorPanic(c.scope, 0, "directive parameter %s is too large at %d of %q", tp, c.pos, c.str)
+	}
+}
+
 // nextArg returns the next format argument and moves on. An error is raised
 // if the arguments are used up or a ~* moved to before the first one.
 func (c *control) nextArg() slip.Object {
@@ -161,6 +178,7 @@ func (c *control) readDir() {
 		case 'v':
 			var p any
 			p = c.nextArg()
+			c.checkParamSize(p)
 			params = append(params, p)
 		case '\'':
 			p := c.readParam()
@@ -169,6 +187,7 @@ func (c *control) readDir() {
 			c.pos--
 			p := c.readParam()
 			if n, err := strconv.ParseInt(string(p), 10, 64); err == nil {
+				c.checkParamSize(slip.Fixnum(n))
 				params = append(params, int(n))
 			} else {
 				slip.ErrorPanic(c.scope, 0, "invalid directive at %d of %q. %s", c.pos-1, c.str, err)
@@ -556,6 +575,9 @@ func (c *control) dirJustify(colon, at bool, params []any) {
 	)
 	mincol = c.getIntParam(0, params, 0, true)
 	colinc = c.getIntParam(1, params, 1, true)
+	if colinc < 1 {
+		colinc = 1
+	}
 	minpad = c.getIntParam(2, params, 0, true)
 	padchar = c.getCharParam(3, params, []byte{' '})
 
@@ -1313,6 +1335,9 @@ func (c *control) dirAS(colon, at bool, params []any, p *slip.Printer) {
 	padchar := []byte{' '}
 	mincol = c.getIntParam(0, params, mincol, true)
 	colinc = c.getIntParam(1, params, colinc, true)
+	if colinc < 1 {
+		colinc = 1 // padding is added colinc at a time, none would never reach mincol
+	}
 	minpad = c.getIntParam(2, params, minpad, true)
 	padchar = c.getCharParam(3, params, padchar)
 	for ; 0 < minpad; minpad-- {
@@ -1357,7 +1382,7 @@ func (c *control) dirT(colon, at bool, params []any) {
 			start++
 			from = len(c.out) - start
 		}
-		if from == from/colinc*colinc {
+		if colinc == 0 || from == from/colinc*colinc {
 			target = from
 		} else {
 			target = from/colinc*colinc + colinc
@@ -1371,7 +1396,11 @@ func (c *control) dirT(colon, at bool, params []any) {
 			from = len(c.out) - start
 		}
 		target = colnum * colinc
-		if target < from {
+		switch {
+		case colinc == 0:
+			// No spaces are output if already at or beyond colnum.
+			target = max(colnum, from)
+		case target < from:
 			target = from/colinc*colinc + colinc
 		}
 	}
